@@ -108,6 +108,7 @@ func (fc *FnCtx) instr(ins ssa.Instruction) {
 		st.mlen = Store(st.mlen, id, IntLit(0))
 		fc.zeroObject(st, id)
 		fc.commitHeaps()
+		fc.assume(Eq(otypeOf(id), IntLit(fc.eng.typeIDByName(types.TypeString(x.Type(), nil)))))
 		fc.vals[x] = Leaf(id)
 	case *ssa.MakeChan:
 		id := fc.define(fc.freshName("chan"), st.next)
@@ -118,9 +119,12 @@ func (fc *FnCtx) instr(ins ssa.Instruction) {
 	case *ssa.MapUpdate:
 		fc.mapUpdate(x)
 	case *ssa.Range:
-		// iterator: opaque
+		// iterator: opaque; a fresh iteration starts with nothing visited
 		fc.vals[x] = Leaf(fc.freshConst("iter", SInt))
 		fc.ifaceSrc[x] = x.X
+		if g, ok := fc.rangeGhost[x]; ok {
+			st.ghost[g] = Term{"((as const (Array Int Bool)) false)", SArr(SInt, SBool)}
+		}
 	case *ssa.Next:
 		fc.next(x)
 	case *ssa.TypeAssert:
@@ -695,6 +699,17 @@ func (fc *FnCtx) next(x *ssa.Next) {
 			slot := fc.define(fc.freshName("slot"), fc.mapSlot(mt.Key(), kv))
 			fc.assume(Implies(ok, Select(Select(fc.cur.mdom, m.T), slot)))
 			fc.assume(Implies(ok, Gt(Select(fc.cur.mlen, m.T), IntLit(0))))
+			if g, has := fc.rangeGhost[rng]; has {
+				// each key is produced once; the loop ends when every key has been produced
+				vis := fc.cur.ghost[g]
+				fc.assume(Implies(ok, Not(Select(vis, slot))))
+				dom := Select(fc.cur.mdom, m.T)
+				sq := Term{"s!vis", SInt}
+				all := Term{fmt.Sprintf("(forall ((s!vis Int)) (! (=> (select %s s!vis) (select %s s!vis)) :pattern ((select %s s!vis))))", dom.S, vis.S, dom.S), SBool}
+				_ = sq
+				fc.assume(Implies(Not(ok), all))
+				fc.cur.ghost[g] = fc.define(fc.freshName(g), Ite(ok, Store(vis, slot, TTrue), vis))
+			}
 			if _, isInv := tup.At(2).Type().(*types.Basic); !isInv || tup.At(2).Type() != types.Typ[types.Invalid] {
 				lv := fc.load(fc.cur, mt.Elem(), m.T, Mul(slot, IntLit(cellsOf(mt.Elem()))))
 				if lv.K != KOpaque {
